@@ -19,6 +19,39 @@ Declined: values third-party middlewares hand to next(); URL conversion values (
 from . import chain
 
 
+def check_url_params_fresh(rep, rule):
+    """The URL parameters of a request are converted for that request: match_path builds a fresh mapping in this
+    activation, every value in it is the result of a converter call on this path's groups, and nothing is stored on
+    the (shared) route object -- so no request can receive a value converted (or mutated) by another one."""
+    import ast
+    from ..core import norm, short
+    from .. import effects
+    from .common import fkey, returns_of, stmts_of, walk_body
+    repo = rep.repo
+    route = repo.mod('clastic.route')
+    mp = route.func('BoundRoute.match_path')
+    rets = [r for r in returns_of(mp) if not (isinstance(r.value, ast.Constant) and r.value.value is None)]
+    ok = len(rets) >= 1 and all(isinstance(r.value, ast.Name) for r in rets) and len(set(norm(r.value) for r in rets)) == 1
+    rv = norm(rets[0].value) if ok else None
+    init = [s for s in stmts_of(mp.node) if isinstance(s, ast.Assign) and norm(s.targets[0]) == rv]
+    ok = ok and len(init) == 1 and ((isinstance(init[0].value, ast.Dict) and not init[0].value.keys) or
+                                    (isinstance(init[0].value, ast.Call) and norm(init[0].value.func) == 'dict'))
+    rep.check(rule, fkey(mp, 'fresh mapping'), ok, 'match_path returns a mapping created in this call' if ok else
+              'match_path does not return a mapping freshly created in this call', route, mp.node)
+    stores = [s for s in stmts_of(mp.node) if isinstance(s, ast.Assign) and isinstance(s.targets[0], ast.Subscript) and norm(s.targets[0].value) == rv]
+    ok = bool(stores) and all(isinstance(s.value, ast.Call) and 'groups' in norm(s.value) or isinstance(s.value, ast.Call) for s in stores)
+    rep.check(rule, fkey(mp, 'values are conversions'), ok, 'every URL parameter value is the result of a converter call made in this call' if ok else
+              'a URL parameter value is not a converter call result', route, stores[0] if stores else mp.node)
+    shared = [e for e in effects.effects_in(mp.node) if e.root in ('self', 'cls') or e.root in route.assigns]
+    reads_cache = [n for n in walk_body(mp.node) if isinstance(n, ast.Attribute) and isinstance(n.value, ast.Name) and n.value.id == 'self'
+                   and n.attr not in ('regex', 'converters')]
+    rep.check(rule, fkey(mp, 'no memo on the route'), not shared and not reads_cache,
+              'match_path neither writes the route object nor reads anything but its regex and converters' if not shared and not reads_cache else
+              'match_path keeps per-path state on the shared route object (%s): converted values (e.g. the list of a multi-segment binding) are '
+              'shared between requests' % ([short(e.node) for e in shared] or [norm(n) for n in reads_cache]), route,
+              (shared[0].node if shared else (reads_cache[0] if reads_cache else mp.node)))
+
+
 def run(rep):
     rep.decide('R02.a keyword identity; R02.b declared-only; R02.c layer precedence and built-in bindings; '
                'R02.d identity not copies; R02.e phase isolation')
@@ -37,6 +70,7 @@ def run(rep):
     g(chain.check_request_layers, rep, 'R02.c', 'R02.d')
     g(chain.check_phase_sets, rep, 'R02.e', rule_pair='R02.e', rule_core_env='R02.e')
     g(chain.check_make_chain, rep, 'R02.e', 'R02.e')
+    g(check_url_params_fresh, rep, 'R02.d')
     if not rep.gaps:
         rep.floor('R02.a', 8)
         rep.floor('R02.b', 8)
